@@ -60,7 +60,7 @@ def reduceLastK (F : List α → α) (data : List α) (dimSize : Nat) : List α 
 
 /-- The `innerStart / strideTrack` walk of `reduceDefault<T>`: the value of `innerStart` for each of
     the `n` output cells of one outer slab. After every `stride` cells `innerStart` additionally jumps
-    by `jump` (the Go code: `jump = stride`; the repaired code: `jump = (dimSize-1)*stride`). -/
+    by `jump` (the Go code: `jump = (dimSize-1)*stride`; before the repair of finding F40: `jump = stride`). -/
 def walk (stride jump : Nat) : Nat → Nat → Nat → List Nat
   | 0, _, _ => []
   | n + 1, is, st =>
@@ -196,8 +196,10 @@ def reduceVals (op : RedOp) (a reuse : Dense) (data : List Val) (axis : Int) : R
     let outerStride ← natOf "outerStride" outerStride
     let stride ← natOf "stride" stride
     let expected ← natOf "expected" expected
-    if !defaultOk data.length dim0 dimSize outerStride stride expected stride then throwPanic "index out of range"
-    pure (reduceDefaultK op.defF data dim0 dimSize outerStride stride expected stride)
+    -- `innerStart += (dimSize - 1) * stride` (finding F40 repaired: the jump lands on the next block)
+    let jump := (dimSize - 1) * stride
+    if !defaultOk data.length dim0 dimSize outerStride stride expected jump then throwPanic "index out of range"
+    pure (reduceDefaultK op.defF data dim0 dimSize outerStride stride expected jump)
 
 /-- the kernels write `retVal[0 .. vals.length)` -/
 def writeVals (st : St) (reuse : Dense) (vals : List Val) : Res (St × Dense) := do
@@ -426,21 +428,6 @@ def engArg (st : St) (isMax : Bool) (vs : Nat) (t : Dense) (axis : Int) : Res Ar
 
 /-! ### Known-defect regions -/
 
-/-- F40: one call of the default (middle-axis) kernel walks wrongly iff more than one block of
-    `stride` cells lies in an outer slab (`∏ shape[1..axis) > 1`) and the reduced extent is not 2. -/
-def Excl_defaultWalk (shape : Shape) (axis : Int) : Bool :=
-  decide (0 < axis) && decide (axis < (shape.length : Int) - 1) &&
-    decide (prod ((shape.take axis.toNat).drop 1) > 1) && (getI? shape axis != some 2)
-
-/-- F40 for a whole `Sum/Max/Min` call: some step of the elimination loop is in the region -/
-def Excl_defaultWalkLoop : Shape → Int → List Int → Bool
-  | _, _, [] => false
-  | sh, k, axis :: rest =>
-    let a := axis - k
-    if a < 0 || a ≥ sh.length then false else
-    Excl_defaultWalk sh a ||
-      Excl_defaultWalkLoop (removeAxis sh a) (k + 1) rest
-
 /-- F41 / F44: the storage window, read left to right, is not the row-major listing of the logical elements -/
 def Excl_rawNotLogical (t : Dense) : Bool :=
   let cs := allCoords t.shape
@@ -631,13 +618,12 @@ def excl (ps : PState) (toks : List String) : List String × Bool :=
       if allAxesShortcut along t.dims then
         -- the shortcut folds the raw window of the (materialised) operand
         ((if !t.isMaterializable && Excl_rawNotLogical t && (t.win.len : Int) != totalSize t.shape then ["F44"] else []), false)
-      else ((if Excl_defaultWalkLoop t.shape 0 (sortInts along) then ["F40"] else []) ++
-            (if Excl_iterableNonView t then ["F44"] else []), false)
+      else ((if Excl_iterableNonView t then ["F44"] else []), false)
     | _, _, _ => ([], false)
   | "reduce" :: a :: axis :: _ =>
     match ps.obj a, axis.toInt? with
-    | some (_, t), some ax =>
-      ((if Excl_defaultWalk t.shape ax then ["F40"] else []) ++ (if Excl_iterableNonView t then ["F44"] else []), false)
+    | some (_, t), some _ =>
+      ((if Excl_iterableNonView t then ["F44"] else []), false)
     | _, _ => ([], false)
   | "arg" :: opn :: _ :: a :: axis :: rest =>
     match ps.obj a, parseAxis axis with
